@@ -321,6 +321,52 @@ Theorem C14_model_is_source_single_treatment_effects : forall (E : Type) (v : vi
 Proof. exact src_view_single_effects_is_model. Qed.
 Print Assumptions C14_model_is_source_single_treatment_effects.
 
+(* the attribute getters of Screen (`return self._<attr>`; Generated/SrcScreenAttrs.v): each property of a Screen object is the
+   corresponding field of the model screen - the per-row arrays as the columns of its rows, the 2-d arrays with the screen's arity
+   as their column count, the id arrays and the three mappings as stored *)
+From Batchie Require Import Generated.SrcScreenAttrs.
+Theorem C14_model_is_source_screen_attributes : forall s : pyscreen,
+  src_screen_plate_ids s = Ok (s_pids (snd s)) /\
+  src_screen_sample_ids s = Ok (s_sids (snd s)) /\
+  src_screen_treatment_ids s = Ok (s_tids (snd s)) /\
+  src_screen_sample_names s = Ok (map r_sample (s_rows (snd s))) /\
+  src_screen_treatment_names s = Ok (s_arity (snd s), map (fun r => map fst (r_treats r)) (s_rows (snd s))) /\
+  src_screen_treatment_doses s = Ok (s_arity (snd s), map (fun r => map snd (r_treats r)) (s_rows (snd s))) /\
+  src_screen_observations s = Ok (map r_obs (s_rows (snd s))) /\
+  src_screen_observation_mask s = Ok (map r_mask (s_rows (snd s))) /\
+  src_screen_treatment_mapping s = Ok (s_tmap (snd s)) /\
+  src_screen_sample_mapping s = Ok (s_smap (snd s)) /\
+  src_screen_plate_mapping s = Ok (s_pmap (snd s)).
+Proof. exact src_screen_attrs_are_model. Qed.
+Print Assumptions C14_model_is_source_screen_attributes.
+
+(* consistency: C14_model_is_source_attributes read the parent's attributes as primitives; with the translated getters in their place
+   a view's property is the mask selection of its parent's property (the mappings are handed through) *)
+Theorem C14_source_view_attributes_of_parent : forall v : view,
+  src_view_plate_ids v = (dor a <- src_screen_plate_ids (view_screen v); Ok (select (v_sel v) a)) /\
+  src_view_sample_ids v = (dor a <- src_screen_sample_ids (view_screen v); Ok (select (v_sel v) a)) /\
+  src_view_treatment_ids v = (dor a <- src_screen_treatment_ids (view_screen v); Ok (select (v_sel v) a)) /\
+  src_view_sample_names v = (dor a <- src_screen_sample_names (view_screen v); Ok (select (v_sel v) a)) /\
+  src_view_treatment_names v = (dor a <- src_screen_treatment_names (view_screen v); Ok (select2 (v_sel v) a)) /\
+  src_view_treatment_doses v = (dor a <- src_screen_treatment_doses (view_screen v); Ok (select2 (v_sel v) a)) /\
+  src_view_observations v = (dor a <- src_screen_observations (view_screen v); Ok (select (v_sel v) a)) /\
+  src_view_observation_mask v = (dor a <- src_screen_observation_mask (view_screen v); Ok (select (v_sel v) a)) /\
+  src_view_treatment_mapping v = src_screen_treatment_mapping (view_screen v) /\
+  src_view_sample_mapping v = src_screen_sample_mapping (view_screen v) /\
+  src_view_plate_mapping v = src_screen_plate_mapping (view_screen v).
+Proof. exact src_view_attrs_of_parent_getters. Qed.
+Print Assumptions C14_source_view_attributes_of_parent.
+
+(* ScreenBase.sample_space_size / treatment_space_size (len of the names column of the mapping the translated property returns): the
+   number of rows of the screen's sample / treatment mapping; a ScreenSubset / Plate reports its parent's *)
+Theorem C14_model_is_source_space_sizes : forall (s : pyscreen) (v : view),
+  src_screen_sample_space_size s = Ok (Z.of_nat (length (s_smap (snd s)))) /\
+  src_screen_treatment_space_size s = Ok (Z.of_nat (length (s_tmap (snd s)))) /\
+  src_view_sample_space_size v = Ok (Z.of_nat (length (s_smap (v_parent v)))) /\
+  src_view_treatment_space_size v = Ok (Z.of_nat (length (s_tmap (v_parent v)))).
+Proof. exact src_space_sizes_are_model. Qed.
+Print Assumptions C14_model_is_source_space_sizes.
+
 (* ================= the small helpers of data.py, translated as well (Generated/SrcPlates.v) =================
    The configurations of the other links (C06, C11, C13) use these helpers as PRIMITIVES; here they are whole translated
    functions, equal to their models at the end of Model/Views.v for all inputs.  Props/C13.v and Props/C11.v then prove that,
